@@ -1,8 +1,10 @@
 import collections, os, re
+import regen
 
 THEOREMS = {
     "Dawgs.Props.C04": [
         "Dawgs.C04.Props.pgQuote_single_token", "Dawgs.C04.Props.pgQuote_in_context", "Dawgs.C04.Props.pgQuote_shape_independent",
+        "Dawgs.C04.Props.pgQuote_needs_scs_on",
         "Dawgs.C04.Props.decode_encode", "Dawgs.C04.Props.decode_correct", "Dawgs.C04.Props.decode_total_or_error",
         "Dawgs.C04.Props.literal_pipeline", "Dawgs.C04.Props.builder_pipeline", "Dawgs.C04.Props.like_escape_literal",
         "Dawgs.C04.Props.key_unescape_escape", "Dawgs.C04.Props.jsonb_key_quoting", "Dawgs.C04.Props.nested_sql_param_bound",
@@ -13,7 +15,20 @@ THEOREMS = {
         "Dawgs.C04.Props.lexFast_eq_lex", "Dawgs.C04.Props.values_safe",
         "Dawgs.C04.Props.c04_full_refuted", "Dawgs.C04.Props.c04_partial", "Dawgs.C04.Props.c04_partial_old_refuted", "Dawgs.C04.Props.c04_fixed",
     ],
+    # T-tie: kernel-checked side conditions on the regenerated emission-site tables (Generated/C04Sites.lean)
+    "Dawgs.Props.C04Sites": [
+        "Dawgs.C04.Sites.format_write_sites_covered", "Dawgs.C04.Sites.format_helpers_in_place", "Dawgs.C04.Sites.format_table_nonempty",
+        "Dawgs.C04.Sites.translate_sites_classified", "Dawgs.C04.Sites.symbols_never_rewritten", "Dawgs.C04.Sites.rows_all_live", "Dawgs.C04.Sites.user_text_rows_escaped",
+        "Dawgs.C04.Sites.const_rows_are_const", "Dawgs.C04.Sites.known_findings_are_rows", "Dawgs.C04.Sites.like_guards",
+        "Dawgs.C04.Sites.sites_table_nonempty", "Dawgs.C04.Sites.unguarded_rows_named", "Dawgs.C04.Sites.guard_calls_in_place",
+        "Dawgs.C04.Sites.guard_ascii_table", "Dawgs.C04.Sites.guard_shape", "Dawgs.C04.Sites.builder_accepts_bare",
+        "Dawgs.C04.Sites.builder_name_one_token",
+    ],
 }
+
+
+def do_regen(ctx):
+    regen.c04_sites()
 
 
 def _field(line, name):
@@ -80,9 +95,10 @@ SPEC = {
     "title": "user-controlled text cannot change the token structure of emitted SQL",
     "level": "proof",
     "fallback_level": "other",
-    "lean_modules": ["Dawgs.Props.C04"],
+    "regen": do_regen,
+    "lean_modules": ["Dawgs.Props.C04", "Dawgs.Props.C04Sites"],
     "theorems_by_module": THEOREMS,
-    "gate_modules": ["Dawgs.Model.C04", "Dawgs.Spec.C04", "Dawgs.Proofs.C04", "Dawgs.Props.C04"],
+    "gate_modules": ["Dawgs.Model.C04", "Dawgs.Spec.C04", "Dawgs.Proofs.C04", "Dawgs.Props.C04", "Dawgs.Props.C04Sites"],
     "suites": [
         {"name": "c04q", "model_suite": "c04q", "keep_prefix": 1, "thorough_seeds": 1},
         {"name": "c04", "model_suite": "c04", "model_input": model_input, "impl_view": const_view, "model_view": model_view,
@@ -96,20 +112,27 @@ SPEC = {
             "nested map literals are rejected by the translator today), property key incl. back-ticked, map key, kind name, variable name, result alias, parameter name, supplied parameter "
             "value bound (string, list, JSONB map incl. nested values and map keys) and materialised, text reaching the SQL handed to the shortest-path functions as bound parameter and as nested literal) x hostile "
             "strings (fixed list of quotes, backslashes, comment openers, dollar quotes, @name, semicolons, NUL-free control characters, non-BMP runes, "
-            "64 KiB strings, trailing backslash/quote; plus random fragment concatenations from splitmix64(VERIF_SEED)) x Cypher encodings (single-quoted, "
+            "64 KiB strings, trailing backslash/quote, one name per ASCII non-identifier character and per Unicode symbol/punctuation/mark/number category; plus random fragment concatenations from splitmix64(VERIF_SEED)) x Cypher encodings (single-quoted, "
             "double-quoted, escape sequences, bare, back-ticked); each case translates the hostile query and a benign twin with the real code and the Lean "
-            "lexer compares the two SQL texts; non-trivial = both twins were translated; distinct = distinct op lines. suite c04q: every generated string "
+            "lexer compares the two SQL texts; a second family feeds the same texts to every name- and value-taking function of the query builders (query/v2 As, NewScope, "
+            "Variable, NamedParameter, kinds, property names, SetProperties/RemoveProperties, values; query Variable, NodeProperty, values) and of the pg driver's "
+            "statement builders (identity properties of upserts) without passing the Cypher lexer: the builder refuses the text or the emitted SQL is judged the same way; non-trivial = both twins were translated; distinct = distinct op lines. suite c04q: every generated string "
             "through the real formatValue / formatIdentifier / NewStringLiteral / decodeCypherStringLiteral / UnescapePropertyKeyName vs the Lean functions, exact equality",
     "expected_branches": ["translated.lit", "translated.key", "translated.ident", "translated.kindname", "translated.param", "translated.paramlist",
                           "rejected.ident", "decode.ok", "decode.err:decode-invalid-escape", "decode.err:decode-dangling", "decode.err:decode-bad-literal"],
     "trusted_base": [
-        "the Lean lexer is written from PostgreSQL's scan.l (standard_conforming_strings = on, the default since 9.1); simplifications: '::' is two ':' tokens, "
-        "numbers are digits with embedded dots, U&'…' is not recognised, comments between continued string constants are not, dollar-quote close matching is by suffix",
+        "the Lean lexer is written from PostgreSQL's scan.l. Modelled: '…' with '' and continuation across a newline, E'…' (backslash escapes), B'…'/X'…'/N'…', "
+        "U&'…' and U&\"…\", \"…\" with \"\", $tag$…$tag$, $n, -- to \\n or \\r, nested /* */, operator maximal munch cut by -- and /* with the trailing +/- rule, "
+        "@name as pgx rewrites it, NUL as end of text; standard_conforming_strings = on is the modelled default and = off is modelled separately (lexOff) to show "
+        "pgQuote is unsafe there — DAWGS neither sets nor checks that server setting. Not modelled: '::' is two ':' tokens, numbers are digits with embedded dots "
+        "(no exponent/hex/underscore forms), comments between continued string constants, UESCAPE clauses and Unicode-escape resolution (post-lexing), "
+        "dollar-quote close matching is by suffix",
         "pgx NamedArgs rewriter = the '@name' token class (checked per case: number of arguments pgx rewrites = number of distinct @name tokens the lexer sees)",
         "identifiers: the lexer does not know key words; reserved words are excluded by the predicate identSafe only",
         "valid UTF-8 input (Go strings with invalid UTF-8 cannot be represented as Lean strings and are not generated)",
     ],
     "assumptions": [
+        "the server runs with standard_conforming_strings = on (default since PostgreSQL 9.1); with off, formatValue's quoting is unsafe (theorem pgQuote_needs_scs_on)",
         "user text is NUL-free (the property's quantifier); the real code passes NUL through unchanged — measured per site in branch 'ok excluded-nul'",
         "aliases/variables: one identifier token for every name (identifier_fixed: back-ticked symbols are written as quoted identifiers since the F9 repair, bare symbols "
         "verbatim); the value read back is the Cypher name except that unquoted names are case-folded (identifier_case_folded, known findings); the statement for the "
@@ -132,6 +155,8 @@ MANIFEST = {
             "had before is refuted by the F9 witness (identifier_verbatim_unsafe_old); exact read-back of the name fails only by case folding of unquoted names "
             "(identifier_case_folded) and holds for an emitter quoting every identifier. The tie compares the Lean functions with the real ones on every generated string and "
             "runs the real translator on ~115 position templates x hostile strings.",
-    "note": "Trusted: Lean kernel, the lexer's fidelity to scan.l (simplifications listed in the evidence), pgx's NamedArgs rewriter (count checked per case). "
+    "note": "Trusted: Lean kernel, the lexer's fidelity to scan.l (simplifications listed in the evidence), pgx's NamedArgs rewriter (count checked per case), the syntactic "
+            "extractor goext c04. T-tie: every Write argument of the formatter and every identifier/alias/LIKE/nested-SQL/parameter/column-list construction site of the "
+            "translator is regenerated per run and must be covered by a modelled quoting function, an exempt row with its reason, or a named known finding. "
             "Known findings: case folding of unquoted aliases/variables at four sites, LIKE escaping applied to regex operands, LIKE operands not escaped under a function.",
 }
